@@ -11,16 +11,27 @@ CONSTANTS Alpha, MaxTail, FlagSet, Offs, DepthDeferred, DepthEager, MBT
 RECURSIVE SeqsOfLen(_, _)
 SeqsOfLen(S, n) == IF n = 0 THEN {<<>>} ELSE {<<x>> \o r : x \in S, r \in SeqsOfLen(S, n - 1)}
 Tails == UNION {SeqsOfLen(Alpha, n) : n \in 1..MaxTail}
-Dgrams == {<<f, 0, 0, 0, 1, o>> \o t : f \in FlagSet, o \in Offs, t \in Tails}
+\* with the ACK flag the tail is additionally followed by a well-formed trailer of one / two IDs
+\* (tails alone are too short to hold a body and a non-empty trailer)
+Trailers == {<<>>, <<0, 0, 0, 1, 1>>, <<255, 0, 1, 0, 0, 0, 0, 1, 2>>}
+Dgrams == {x \in {<<f, 0, 0, 0, 1, o>> \o t \o a : f \in FlagSet, o \in Offs, t \in Tails, a \in Trailers} :
+             HasBit(x[1], ABit) \/ Len(x) <= 6 + MaxTail}
 Accepted == {x \in Dgrams : Select(x) # 0}
 
+\* what kind of datagram this is (exported so that the harness can show that no clause of the property
+\* is checked vacuously: every class must be inhabited)
+Class(t, dg) == LET p == Parse(t, dg)
+                IN [status |-> p.status, z |-> HasBit(dg[1], ZBit), canon |-> CanonicalZ(dg),
+                    rest |-> (p.status = "ok" /\ p.rest # <<>>),
+                    partial |-> (p.status = "ok" /\ Len(p.blocks) < Len(t.blocks)),
+                    acks |-> Len(Hdr(dg).acks)]
 Emit(r) == IF MBT THEN PrintT(ToJson(r)) ELSE TRUE
 Init == \E dg \in Accepted, md \in {"eager", "deferred"}, acc \in BOOLEAN :
           /\ ReceiveOK(U[Select(dg)], dg, md, acc)
           /\ T = U[Select(dg)] /\ d = dg /\ mode = md
           /\ st = IF ~acc THEN "refused" ELSE IF md = "eager" THEN "parsed" ELSE "raw"
           /\ hist = <<>> /\ out = [op |-> "recv"]
-          /\ Emit([init |-> dg, t |-> U[Select(dg)].name, mode |-> md, st |-> st])
+          /\ Emit([init |-> dg, t |-> U[Select(dg)].name, mode |-> md, st |-> st, cls |-> Class(U[Select(dg)], dg)])
 Depth == IF mode = "eager" THEN DepthEager ELSE DepthDeferred
 Step(op) == /\ Len(hist) < Depth /\ (Len(hist) = Depth - 1 => op = "R")
             /\ hist' = Append(hist, op)
